@@ -134,3 +134,23 @@ Lemma gen_answer_filter_shape : src_answer_filter = map s2b [
   "resp.Answer = dnsutil.FilterRRsToZone(resp.Answer, zone)";
   "targetMsg, targetCut, err := r.checkDname(ctx, resp)" ].
 Proof. vm_compute. reflexivity. Qed.
+
+(* the statements Model.deleg_apply restates: processDelegation labels the new server set with the NS owner before
+   anything is published, looks the key up before it builds a set, and stores that very set ... *)
+Lemma gen_deleg_store_shape : src_deleg_store = map s2b [
+  "if cached, err := r.delegations.Get(key); err == nil {";
+  "authservers.CheckingDisable = cd";
+  "authservers.Zone = q.Name";
+  "if err := r.lookupV4Nss(ctx, q, authservers, key, rs.parentDS, foundv4, nsInfo.hosts, cd, childDeadline); err != nil {";
+  "r.delegations.SetUntil(key, rs.parentDS, authservers, childDeadline)" ].
+Proof. vm_compute. reflexivity. Qed.
+
+(* ... and lookupV4Nss publishes the live set (same pointer, hence same zone label) under the same key before each
+   address lookup, once it holds a server *)
+Lemma gen_provisional_publish_shape : src_provisional_publish = map s2b [
+  "authservers.Hosts = append(authservers.Hosts, name)";
+  "hasList := len(authservers.List) > 0";
+  "if hasList && (!r.dnssec || r.hasTrustAnchors()) {";
+  "r.delegations.SetUntil(key, parentDS, authservers, minNonZero(cutDeadline, time.Now().Add(time.Minute)))";
+  "addrs, err := r.lookupNSAddrV4(ctx, name, cd)" ].
+Proof. vm_compute. reflexivity. Qed.
